@@ -235,6 +235,27 @@ func genProducer(c *cf.Case, r *cf.Rng, prop string) {
 		}
 	}
 	clusterBasic(c, r, maxB, maxT, maxP)
+	if cfg.Idempotent && r.Intn(10) == 0 {
+		// many partitions and topic names that are prefixes of one another (t, t1): per-partition producer state
+		// must stay per topic AND partition
+		nbk := len(c.Cluster.Brokers)
+		t0 := &c.Cluster.Topics[0]
+		for n := r.Range(11, 13); len(t0.Partitions) < n; {
+			l := int32(1 + len(t0.Partitions)%nbk)
+			t0.Partitions = append(t0.Partitions, cf.Part{ID: int32(len(t0.Partitions)), Leader: l, Replicas: []int32{l}})
+		}
+		if len(c.Cluster.Topics) < 2 {
+			tp := cf.Topic{Name: "t1"}
+			for p := 0; p < r.Range(2, 3); p++ {
+				l := int32(1 + p%nbk)
+				tp.Partitions = append(tp.Partitions, cf.Part{ID: int32(p), Leader: l, Replicas: []int32{l}})
+			}
+			c.Cluster.Topics = append(c.Cluster.Topics, tp)
+		}
+		if nmsg < 25 {
+			nmsg = r.Range(25, 50)
+		}
+	}
 	if prop == "C17" && r.Bool() || prop == "C04" && r.Intn(4) == 0 {
 		// leaderless partitions from the start
 		for ti := range c.Cluster.Topics {
@@ -340,6 +361,19 @@ func genProducer(c *cf.Case, r *cf.Rng, prop string) {
 				f.Append = r.Bool()
 			}
 			pickPartition(c, r, &f)
+			if f.Arg == "" && f.When.Broker == 0 && !f.When.HasPart && r.Intn(4) == 0 {
+				// the same trouble twice in a row: the resend of the failed request fails as well, perhaps slowly
+				g := f
+				g.When.Nth++
+				if r.Bool() {
+					g.SlowUs = int64(r.Pick(20000, 100000, 600000))
+				}
+				c.Faults = append(c.Faults, g)
+			}
+			if (f.Code == 6 || f.Code == 5) && r.Intn(3) == 0 {
+				// the error announces an election: no leader for a while
+				f.Arg, f.Us, f.To = "election", int64(r.Pick(500, 5000, 30000, 150000, 600000)), int32(r.Range(1, nb))
+			}
 		case k < 9:
 			f.When = cf.When{API: "Produce", Broker: int32(r.Range(0, nb)), Nth: r.Range(1, 10)}
 			f.Do = "drop-after"
@@ -388,6 +422,39 @@ func genProducer(c *cf.Case, r *cf.Rng, prop string) {
 			f.Us = int64(r.Pick(5000, 50000, 300000))
 		}
 		c.Faults = append(c.Faults, f)
+	}
+	if faultMax > 0 && r.Intn(6) == 0 {
+		// repeated elections under steady input: every message arrives a little later than the one before, and
+		// several produce requests are answered "not leader" followed by a leaderless spell, so that fresh input,
+		// parked input, failed leader look-ups and later retry rounds of one partition overlap
+		// (bursts that back up against a small channel buffer, separated by pauses long enough to outlast the
+		// leader look-up circuit breaker's ten seconds)
+		cfg.ChanBuf = r.Pick(0, 1, 1, 4)
+		left := 0
+		for i := range c.Workload {
+			if c.Workload[i].Op != "send" {
+				continue
+			}
+			if left == 0 {
+				left = r.Range(3, 12)
+				c.Workload[i].ThinkUs = int64(r.Pick(2000, 50000, 1000000, 4000000, 12000000))
+			} else {
+				c.Workload[i].ThinkUs = 0
+			}
+			left--
+		}
+		if r.Bool() {
+			c.Faults = nil
+		}
+		n, nth := r.Range(2, 4), 0
+		for j := 0; j < n; j++ {
+			nth += r.Range(1, 4)
+			f := cf.Fault{When: cf.When{API: "Produce", Nth: nth}, Do: "errcode", Code: r.Pick(6, 6, 5), AllParts: true}
+			if r.Intn(4) != 0 {
+				f.Arg, f.Us, f.To = "election", int64(r.Pick(500, 5000, 30000, 150000, 600000, 2000000)), int32(r.Range(1, nb))
+			}
+			c.Faults = append(c.Faults, f)
+		}
 	}
 	// liveness bound in fake time (generous: a false liveness alarm is worse than a slow one)
 	per := cfg.BackoffMs + cfg.DialTimeoutMs + cfg.ReadTimeoutMs + (cfg.MetaRetryMax+1)*(cfg.MetaBackoffMs+cfg.ReadTimeoutMs+cfg.DialTimeoutMs)
